@@ -10,3 +10,6 @@ import PyxisVerif.Props.C09
 #print axioms PyxisVerif.C09.worklist_order_independent
 #print axioms PyxisVerif.C09.files_order_independent
 #print axioms PyxisVerif.C09.setState_extends
+#print axioms PyxisVerif.C09.build_schedule_independent_novft
+#print axioms PyxisVerif.Mono.attempt_mono
+#print axioms PyxisVerif.Mono.loops_agree
